@@ -272,6 +272,11 @@ func hostileFrame(rt *rapid.T) hostile {
 		b, k, _ := seedFrame(rt, budget)
 		return hostile{b: b, kind: k, valid: true}
 	case 3: // L5: deep nesting with lying lengths
+		if rapid.Bool().Draw(rt, "nest_bundles") {
+			if h, ok := deepBundles(rt); ok {
+				return h
+			}
+		}
 		if h, ok := deepNest(rt); ok {
 			return h
 		}
@@ -490,4 +495,45 @@ func deepNest(rt *rapid.T) (hostile, bool) {
 		muts = append(muts, fmt.Sprintf("%d length fields of the chain overridden", k))
 	}
 	return hostile{b: b, kind: "flow_mod(deep ct chain)", muts: muts}, true
+}
+
+// deepBundles (L5b): a bundle-add nested in bundle-adds 8..60 levels deep, every
+// level with 0..2 experimenter properties; conformant as generated (work must
+// stay proportional to the frame), then optionally mutated like any other frame.
+func deepBundles(rt *rapid.T) (hostile, bool) {
+	// written by hand in the form the library itself reads and writes: the properties follow the carried
+	// message directly; every length is kept a multiple of 8 (16-byte properties = 12-byte header + 4 data
+	// bytes) so that a reader that expects 8-byte alignment agrees too
+	depth := rapid.IntRange(8, 60).Draw(rt, "bundle_depth")
+	everyLevel := rapid.Bool().Draw(rt, "props_every_level")
+	cur := []byte{4, 20, 0, 8, 0, 0, 0, 1} // innermost: barrier request
+	if rapid.Bool().Draw(rt, "innermost_echo") {
+		cur = []byte{4, 2, 0, 16, 0, 0, 0, 1, 1, 2, 3, 4, 5, 6, 7, 8}
+	}
+	for i := 0; i < depth; i++ {
+		nprops := gen.Pick(rt, "nprops", 3)
+		if everyLevel && nprops == 0 {
+			nprops = 1
+		}
+		n := 16 + 8 + len(cur) + 16*nprops
+		if n > 65535 {
+			break
+		}
+		b := make([]byte, 0, n)
+		b = append(b, 4, 4, byte(n>>8), byte(n), 0, 0, byte(i>>8), byte(i))
+		b = append(b, 0x4f, 0x4e, 0x46, 0x00, 0, 0, 0x08, 0xfd) // ONF, bundle add (2301)
+		b = append(b, 0, 0, 0, byte(i), 0, 0, 0, 1)             // bundle id, pad, flags
+		b = append(b, cur...)
+		for j := 0; j < nprops; j++ {
+			b = append(b, 0xff, 0xff, 0, 16, 0, 0, 0x12, 0x34, 0, 0, 0, byte(j), 0xa, 0xb, 0xc, 0xd)
+		}
+		cur = b
+	}
+	b := cur
+	muts := []string{fmt.Sprintf("deep-bundles depth=%d props_every_level=%v", depth, everyLevel)}
+	if gen.Pick(rt, "mutate_bundles", 3) == 0 {
+		_, slots, _ := spec.Decode(b)
+		b = mutateFrame(rt, b, slots, &muts)
+	}
+	return hostile{b: b, kind: "bundle_add(deep chain)", muts: muts}, true
 }
